@@ -79,8 +79,15 @@ func safely(f func() error) (err error, panicked interface{}) {
 	return f(), nil
 }
 
-func buildBytes(impl *Impl, b Batch, cm uint32) ([]byte, segment.Segment, error) {
-	seg, _, err := impl.New(b.Documents(), HarnessNorm, cm)
+// buildBytes and mergeBytes turn a panic of the code under test into an error,
+// so that an exploration reports it with the input that caused it.
+func buildBytes(impl *Impl, b Batch, cm uint32) (file []byte, seg segment.Segment, err error) {
+	defer func() {
+		if r := recover(); r != nil {
+			file, seg, err = nil, nil, fmt.Errorf("panic: %v", r)
+		}
+	}()
+	seg, _, err = impl.New(b.Documents(), HarnessNorm, cm)
 	if err != nil {
 		return nil, nil, err
 	}
@@ -89,9 +96,14 @@ func buildBytes(impl *Impl, b Batch, cm uint32) ([]byte, segment.Segment, error)
 	return buf.Bytes(), seg, err
 }
 
-func mergeBytes(impl *Impl, segs []segment.Segment, drops []*roaring.Bitmap, cm uint32) ([]byte, [][]uint64, error) {
+func mergeBytes(impl *Impl, segs []segment.Segment, drops []*roaring.Bitmap, cm uint32) (file []byte, nums [][]uint64, err error) {
+	defer func() {
+		if r := recover(); r != nil {
+			file, nums, err = nil, nil, fmt.Errorf("panic: %v", r)
+		}
+	}()
 	var buf bytes.Buffer
-	nums, _, err := impl.MergeCM(segs, drops, &buf, cm, nil)
+	nums, _, err = impl.MergeCM(segs, drops, &buf, cm, nil)
 	return buf.Bytes(), nums, err
 }
 
@@ -461,7 +473,7 @@ func specialC12(seed int64, thorough bool) *Special {
 		nw = 30
 		bufs = []int{0, 1, 16, 4096, 1 << 20}
 	}
-	sp.Rule = fmt.Sprintf("%d workloads (merges of 1-3 segments with deletions through Merger.WriteTo with buffer sizes %v, and Segment.WriteTo of built and loaded segments); for EVERY byte offset k below the file length the destination fails after k bytes (the call must return an error) and, for merges, the close channel is closed when k bytes have been written (the call must return ErrClosed, or succeed with the complete, loadable file); exhaustive per workload; non-trivial = every (workload, buffer size, offset) triple is distinct and lies inside the file", nw, bufs)
+	sp.Rule = fmt.Sprintf("%d workloads (merges of 1-3 segments with deletions through Merger.WriteTo with buffer sizes %v, and Segment.WriteTo of built and loaded segments); for EVERY byte offset k below the file length the destination fails after k bytes (the call must return an error) and, for merges, the close channel is closed when k bytes have been written (the call must return ErrClosed, or succeed with the complete, loadable file); exhaustive per workload; plus two boundary workloads (two inputs of 129-136 documents: every offset; 1,025+ and 6 documents with a doc-value field sorting last: a stride of offsets and the last 600), where a panic is also a failure; non-trivial = every (workload, buffer size, offset) triple is distinct and lies inside the file", nw, bufs)
 	sp.Extra["exhaustive_per_workload"] = true
 	faults, cancels, closedErr, completed := 0, 0, 0, 0
 	for wl := 0; wl < nw; wl++ {
@@ -553,6 +565,88 @@ func specialC12(seed int64, thorough bool) *Special {
 			sp.Samples = append(sp.Samples, c12Input{Seed: seed, Workload: wl, Kind: "merge+persist", Total: clean.Len()})
 		}
 	}
+	// boundary workloads: the close (or the fault) falls right after a 128-document stored
+	// block / a 1,024-document doc-value chunk of the first of two inputs has been written
+	type bigWL struct {
+		name   string
+		sizes  []int
+		dv     bool
+		bufs   []int
+		stride int
+	}
+	bigs := []bigWL{{"two inputs of 129-136 documents (stored blocks)", []int{129 + g.R.Intn(8), 129 + g.R.Intn(8)}, false, []int{1, 64}, 1},
+		{"1,025-1,040 and 6 documents with a doc-value field that sorts last (doc-value chunks)", []int{1025 + g.R.Intn(16), 6}, true, []int{1}, 13}}
+	if thorough {
+		bigs[1].stride = 3
+		bigs[1].bufs = []int{1, 100}
+	}
+	for bi, wl := range bigs {
+		var segs []segment.Segment
+		var drops []*roaring.Bitmap
+		for j, nd := range wl.sizes {
+			var b Batch
+			for d := 0; d < nd; d++ {
+				doc := Doc{idField(fmt.Sprintf("%c%d", 'a'+j, d), true)}
+				if wl.dv {
+					doc = append(doc, Field{N: "zz", Len: 1, DV: true, Terms: []Term{{T: []byte(fmt.Sprintf("v%d", d%7)), Freq: 1}}})
+				}
+				b = append(b, doc)
+			}
+			seg, _, err := Current.New(b.Documents(), HarnessNorm, 1025)
+			if err != nil {
+				sp.failf(nil, "build failed: %v", err)
+				return sp
+			}
+			segs = append(segs, seg)
+			drops = append(drops, nil)
+		}
+		for _, bs := range wl.bufs {
+			var clean bytes.Buffer
+			n, err := Current.Merger(segs, drops, bs).WriteTo(&clean, nil)
+			if err != nil || int(n) != clean.Len() {
+				sp.failf(c12Input{Seed: seed, Workload: 1000 + bi, Kind: "merge", BufSize: bs}, "clean merge failed or miscounted: err=%v n=%d len=%d", err, n, clean.Len())
+				continue
+			}
+			total := clean.Len()
+			tried := 0
+			for off := 0; off < total; off++ {
+				if off%wl.stride != 0 && off < total-600 {
+					continue
+				}
+				tried++
+				in := c12Input{Seed: seed, Workload: 1000 + bi, Kind: "merge:" + wl.name, BufSize: bs, Offset: off, Total: total}
+				fw := &failAt{k: off}
+				var err error
+				_, p := safely(func() error { _, err = Current.Merger(segs, drops, bs).WriteTo(fw, nil); return nil })
+				faults++
+				if p != nil {
+					sp.failf(in, "Merger.WriteTo panicked when the writer failed after %d of %d bytes: %v", off, total, p)
+				} else if err == nil {
+					sp.failf(in, "Merger.WriteTo reported success although the writer failed after %d of %d bytes", off, total)
+				}
+				cw := &closeAt{k: off, ch: make(chan struct{})}
+				_, p = safely(func() error { _, err = Current.Merger(segs, drops, bs).WriteTo(cw, cw.ch); return nil })
+				cancels++
+				switch {
+				case p != nil:
+					sp.failf(in, "merge cancelled after %d of %d bytes panicked (neither ErrClosed nor a complete file): %v", off, total, p)
+				case err == segment.ErrClosed:
+					closedErr++
+				case err != nil:
+					sp.failf(in, "cancelled merge returned an unexpected error: %v", err)
+				default:
+					completed++
+					if !bytes.Equal(cw.buf.Bytes(), clean.Bytes()) {
+						sp.failf(in, "merge cancelled after %d bytes reported success but wrote %d bytes that differ from the complete %d-byte file", off, cw.buf.Len(), total)
+					}
+				}
+			}
+			sp.Evaluations += 2 * tried
+			sp.Distinct += 2 * tried
+			sp.Nontrivial += 2 * tried
+		}
+	}
+	sp.Extra["boundary_workloads"] = fmt.Sprintf("%d (offsets: all / every %d-th plus the last 600)", len(bigs), bigs[1].stride)
 	sp.Extra["write_faults_injected"] = faults
 	sp.Extra["cancellations_injected"] = cancels
 	sp.Extra["cancelled_with_ErrClosed"] = closedErr
@@ -730,7 +824,7 @@ func specialC15(seed int64, thorough bool, tmp string) *Special {
 	if thorough {
 		nh, nops = 400, 25
 	}
-	sp.Rule = fmt.Sprintf("%d histories of %d operations (reads with exclusion bitmaps, Segment.WriteTo, merges with deletion bitmaps) over 3 segments (built, merged, loaded) and 3 bitmaps; before the history and after every operation each segment's full dump and persisted bytes and each bitmap's serialised bytes and container statistics are compared with the initial snapshot; non-trivial = a history containing a merge or a persist between two observations", nh, nops)
+	sp.Rule = fmt.Sprintf("%d histories of %d operations (reads with exclusion bitmaps, Segment.WriteTo, merges with deletion bitmaps) over 3 segments (built, merged, loaded) and 3 bitmaps; before the history and after every operation each segment's full dump and persisted bytes and each bitmap's serialised bytes and container statistics are compared with the initial snapshot; plus segments of 1,100-2,200 documents read by an interleaved two-reader / two-iterator script before and after merges and persists; non-trivial = a history containing a merge or a persist between two observations", nh, nops)
 	opCount := map[string]int{}
 	for h := 0; h < nh; h++ {
 		in := NewInterp(Current, tmp)
@@ -899,7 +993,150 @@ func specialC15(seed int64, thorough bool, tmp string) *Special {
 		in.Close()
 	}
 	sp.Extra["operation_counts"] = opCount
+	rounds := 2
+	if thorough {
+		rounds = 10
+	}
+	bigImmut(sp, g, seed, rounds, tmp)
 	return sp
+}
+
+// bigImmut: a segment with more than 1,024 documents (several doc-value chunks,
+// multi-chunk postings) is read by a fixed script - two doc-value readers used
+// alternately on different chunks, two iterators of one long term advanced
+// alternately, stored fields on both sides of a block boundary - before and
+// after it took part in merges (in either position, with deletions) and persists.
+// The script's answers must not change.
+func bigImmut(sp *Special, g *Gen, seed int64, rounds int, tmp string) {
+	for r := 0; r < rounds; r++ {
+		n := 1100 + g.R.Intn(1100)
+		b := g.Batch(BatchOpts{NDocs: n, NFields: 2, NVocab: 4, ForceDV: true, AllFields: true, Dense: r%2 == 0})
+		small := g.Batch(BatchOpts{NDocs: 3 + g.R.Intn(5), NFields: 2, NVocab: 4, ForceDV: true, IDPrefix: "s"})
+		seg, _, err := Current.New(b.Documents(), HarnessNorm, 1025)
+		if err != nil {
+			sp.failf(nil, "build failed: %v", err)
+			return
+		}
+		if r%2 == 1 { // a loaded segment
+			var buf bytes.Buffer
+			seg.WriteTo(&buf, nil)
+			if seg, err = Current.Load(segment.NewDataBytes(buf.Bytes())); err != nil {
+				sp.failf(nil, "load failed: %v", err)
+				return
+			}
+		}
+		sseg, _, _ := Current.New(small.Documents(), HarnessNorm, 1025)
+		fts := BatchTerms(b)
+		long := fts[len(fts)-1]
+		for _, ft := range fts { // the first term of a non-_id field: dense batches give it > 1,024 postings
+			if ft.F != "_id" {
+				long = ft
+				break
+			}
+		}
+		script := func() (out W) {
+			defer func() {
+				if p := recover(); p != nil {
+					out = append(out, 999999, 999999)
+				}
+			}()
+			fields := seg.Fields()
+			r1, e1 := seg.DocumentValueReader(fields)
+			r2, e2 := seg.DocumentValueReader(fields)
+			if e1 != nil || e2 != nil {
+				return W{888888}
+			}
+			visit := func(rd segment.DocumentValueReader, d int) {
+				cnt := 0
+				var vals W
+				err := rd.VisitDocumentValues(uint64(d), func(f string, t []byte) {
+					vals.Str(f)
+					vals.Bytes(t)
+					cnt++
+				})
+				out.Bool(err != nil)
+				out.Num(uint64(cnt))
+				out.Append(vals)
+			}
+			for _, d := range []int{0, 1030, 1, 5, n - 1, 1023, 1024, 2, n - 2} {
+				visit(r1, d%n)
+				visit(r2, (d+1024)%n)
+			}
+			dd, err := seg.Dictionary(long.F)
+			if err != nil {
+				return append(out, 777777)
+			}
+			var its [2]segment.PostingsIterator
+			for k := range its {
+				pl, err := dd.PostingsList(long.T, nil, nil)
+				if err != nil {
+					return append(out, 777777)
+				}
+				out.Num(pl.Count())
+				if its[k], err = pl.Iterator(true, true, true, nil); err != nil {
+					return append(out, 777777)
+				}
+			}
+			for step := 0; step < 12; step++ {
+				for k := range its {
+					p, err := its[k].Advance(uint64((step*211 + k*1024) % n))
+					out.Bool(err != nil)
+					if p != nil {
+						out.Num(p.Number())
+						out.Num(uint64(p.Frequency()))
+						out.Num(uint64(len(p.Locations())))
+					} else {
+						out.Num(0)
+					}
+				}
+			}
+			for _, d := range []int{127, 128, 0, n - 1} {
+				seg.VisitStoredFields(uint64(d), func(f string, v []byte) bool {
+					out.Str(f)
+					out.Bytes(v)
+					return true
+				})
+			}
+			return out
+		}
+		base := script()
+		drops := bitmapOf(g.subset(n, 9))
+		steps := []struct {
+			name string
+			f    func()
+		}{
+			{"merge as first input, with deletions", func() {
+				mergeBytes(Current, []segment.Segment{seg, sseg}, []*roaring.Bitmap{drops, nil}, 1025)
+			}},
+			{"merge as second input", func() { mergeBytes(Current, []segment.Segment{sseg, seg}, []*roaring.Bitmap{nil, nil}, 1025) }},
+			{"persist", func() {
+				var buf bytes.Buffer
+				seg.WriteTo(&buf, nil)
+			}},
+			{"public single-segment merge", func() {
+				var buf bytes.Buffer
+				safely(func() error {
+					_, err := Current.Merger([]segment.Segment{seg}, []*roaring.Bitmap{nil}, 64).WriteTo(&buf, nil)
+					return err
+				})
+			}},
+		}
+		var hist []string
+		for _, st := range steps {
+			st.f()
+			hist = append(hist, st.name)
+			now := script()
+			if !eqW(now, base) {
+				sp.failf(map[string]interface{}{"seed": seed, "exploration": "big-immut", "round": r, "ndocs": n, "ops": append([]string(nil), hist...), "first_difference_at": firstDiff(now, base)},
+					"after %q the read script (two doc-value readers and two iterators used alternately across chunks) of a %d-document segment answers differently than before", st.name, n)
+				break
+			}
+			sp.Evaluations++
+			sp.Nontrivial++
+		}
+		sp.Distinct++
+	}
+	sp.Extra["big_segments"] = fmt.Sprintf("%d segments of 1,100-2,200 documents, 4 operations each, interleaved two-reader script", rounds)
 }
 
 // ---------------------------------------------------------------------------
@@ -1665,7 +1902,7 @@ func specialLarge(prop string, seed int64, thorough bool) *Special {
 	if thorough {
 		rounds = 12
 	}
-	sp.Rule = fmt.Sprintf("%d segments of 130-300 documents whose stored values (C06) or doc-value terms (C07) are 6-12 KB each, so that one 128-document stored block / one doc-value chunk holds more than 1 MiB; built, loaded from a file and merged; every document is read back and compared with the input; non-trivial = a block or chunk above 1 MiB", rounds)
+	sp.Rule = fmt.Sprintf("%d segments of 130-300 documents whose stored values (C06) or doc-value terms (C07) are 6-12 KB each, so that one 128-document stored block / one doc-value chunk holds more than 1 MiB; built, loaded from a file and merged; every document is read back and compared with the input; for C06 also one segment whose records have every combination of 1-3 byte meta-length and 1-4 byte data-length varints (1, 60 and 5,600 stored values per document, up to 2.2 MB); non-trivial = a block or chunk above 1 MiB, or a record of the grid", rounds)
 	for r := 0; r < rounds; r++ {
 		nd := 130 + g.R.Intn(170)
 		var b Batch
@@ -1750,7 +1987,114 @@ func specialLarge(prop string, seed int64, thorough bool) *Special {
 			sp.Samples = append(sp.Samples, map[string]interface{}{"round": r, "ndocs": nd, "value_size": size})
 		}
 	}
+	if prop == "C06" {
+		storedVarintGrid(sp, g, seed)
+	}
 	return sp
+}
+
+// storedVarintGrid: a stored record starts with two uvarints, the length of its
+// meta part (three or more bytes per stored value) and the length of its data.
+// One document per combination of their encoded widths (1-3 bytes x 1-4 bytes:
+// 1 / 60 / 5,600 values, totalling tens of bytes to more than 2 MiB), in one
+// block together with short records, is built, loaded from a file, merged
+// through the byte-copy path and through the re-encoding path, and read back.
+func storedVarintGrid(sp *Special, g *Gen, seed int64) {
+	type shape struct{ Values, Size int }
+	var shapes []shape
+	for _, nv := range []int{1, 60, 5600} {
+		for _, total := range []int{40, 3000, 40000, 2200000} {
+			sz := total / nv
+			if nv == 5600 && total == 40 {
+				sz = 0 // 5,600 values, only a few of them non-empty
+			}
+			shapes = append(shapes, shape{nv, sz})
+		}
+	}
+	var b Batch
+	var want [][][]byte
+	for i, sh := range shapes {
+		doc := Doc{idField(fmt.Sprintf("g%d", i), false)}
+		var vals [][]byte
+		for v := 0; v < sh.Values; v++ {
+			n := sh.Size
+			if sh.Size == 0 && v%80 == 0 {
+				n = 1
+			}
+			val := make([]byte, n)
+			for k := range val {
+				val[k] = byte(g.R.Intn(256))
+			}
+			doc = append(doc, Field{N: "body", St: true, Val: val})
+			vals = append(vals, val)
+		}
+		b = append(b, doc, Doc{idField(fmt.Sprintf("s%d", i), true)}) // a short record after each long one
+		want = append(want, vals, [][]byte{[]byte(fmt.Sprintf("s%d", i))})
+	}
+	in := map[string]interface{}{"seed": seed, "exploration": "stored-varint-grid", "shapes": shapes}
+	file, seg, err := buildBytes(Current, b, 1025)
+	if err != nil {
+		sp.failf(in, "build failed: %v", err)
+		return
+	}
+	segs := map[string]segment.Segment{"built": seg}
+	if l, err := Current.Load(segment.NewDataReaderAt(&faultyReader{b: file, failFrom: -1}, len(file))); err == nil {
+		segs["loaded"] = l
+	} else {
+		sp.failf(in, "load failed: %v", err)
+	}
+	if mb, _, err := mergeBytes(Current, []segment.Segment{seg}, []*roaring.Bitmap{nil}, 1025); err == nil {
+		if m, err := Current.Load(segment.NewDataBytes(mb)); err == nil {
+			segs["merged-copy-path"] = m
+		}
+	} else {
+		sp.failf(in, "merge failed: %v", err)
+	}
+	// dropping the last (short) document forces the re-encoding path; the numbers of the others stay
+	if mb, _, err := mergeBytes(Current, []segment.Segment{seg}, []*roaring.Bitmap{bitmapOf([]uint64{uint64(len(b) - 1)})}, 1025); err == nil {
+		if m, err := Current.Load(segment.NewDataBytes(mb)); err == nil {
+			segs["merged-reencoded"] = m
+		}
+	} else {
+		sp.failf(in, "merge with a deletion failed: %v", err)
+	}
+	for kind, sg := range segs {
+		for d := range b {
+			if uint64(d) >= sg.Count() {
+				continue
+			}
+			var got [][]byte
+			var verr error
+			_, p := safely(func() error {
+				verr = sg.VisitStoredFields(uint64(d), func(f string, v []byte) bool {
+					if f == "body" || (f == "_id" && d%2 == 1) {
+						got = append(got, append([]byte(nil), v...))
+					}
+					return true
+				})
+				return nil
+			})
+			ok := p == nil && verr == nil && len(got) == len(want[d])
+			for k := 0; ok && k < len(got); k++ {
+				ok = bytes.Equal(got[k], want[d][k])
+			}
+			if !ok {
+				sh := shape{0, 0}
+				if d%2 == 0 {
+					sh = shapes[d/2]
+				}
+				sp.failf(map[string]interface{}{"seed": seed, "exploration": "stored-varint-grid", "segment": kind, "doc": d, "values": sh.Values, "value_size": sh.Size},
+					"document %d (%d stored values of %d bytes) of the %s segment did not return its stored values: panic=%v err=%v, %d values instead of %d",
+					d, sh.Values, sh.Size, kind, p, verr, len(got), len(want[d]))
+			}
+			sp.Evaluations++
+			sp.Distinct++
+			if d%2 == 0 {
+				sp.Nontrivial++
+			}
+		}
+	}
+	sp.Extra["stored_varint_grid"] = fmt.Sprintf("%d record shapes (values x bytes per value) %v in %d segments", len(shapes), shapes, len(segs))
 }
 
 // dvChunkFaults: one reader with a cached doc-value chunk; the storage starts failing at the j-th read
